@@ -32,6 +32,7 @@ ASSUMPTIONS = [
     "state-wise identity is demanded on states reachable within N iterations only; programs with continuous draws or abstracted "
     "conditions are checked at expectation level only",
 ]
+UNINIT_COUNTERFACTUAL = True   # worker: unattributed violations are re-run with explicit initial assignments (diagnose.attribute_uninit)
 TIMEOUT = {"quick": 40, "thorough": 120}
 DEADLINE = {"quick": 100, "thorough": 1000}
 MIN_DECIDING = {"quick": 40, "thorough": 300}
